@@ -48,6 +48,14 @@ static const char *mode_name[3] = { "gcm", "ccm", "eax" };
 
 static long long g_seed;
 static int g_worker, g_nworkers;
+static long long g_enum;
+
+/* round-robin distribution of the enumerated work items over the workers */
+static int
+mine(void)
+{
+	return (g_enum ++) % g_nworkers == g_worker;
+}
 
 /* ------------------------------------------------------------------ */
 /* implementations under test */
@@ -952,7 +960,7 @@ part_split(int split_max, int nkeys)
 				int s, which;
 				char part[64];
 
-				if (idx % g_nworkers != g_worker) continue;
+				if (!mine()) continue;
 				vf_rng_init(&r, (uint64_t)g_seed, 0x20000000ull + (uint64_t)idx);
 				klen = 16 + 8 * (size_t)((L + kk + c) % 3);
 				vf_bytes(&r, key, sizeof key);
@@ -1016,7 +1024,7 @@ part_flip(int nmsgs)
 			int f, bit;
 			char part[64];
 
-			if (idx % g_nworkers != g_worker) continue;
+			if (!mine()) continue;
 			vf_rng_init(&r, (uint64_t)g_seed, 0x30000000ull + (uint64_t)idx);
 			klen = 16 + 8 * (size_t)((k + c) % 3);
 			vf_bytes(&r, key, sizeof key);
@@ -1102,7 +1110,7 @@ part_ccm(int ndecl)
 			uint64_t dl[16], al[8];
 			int ndl = 0, nal = 0, a, d;
 
-			if (idx % g_nworkers != g_worker) continue;
+			if (!mine()) continue;
 			vf_rng_init(&r, (uint64_t)g_seed, 0x40000000ull + (uint64_t)idx);
 			klen = 16 + 8 * (size_t)(nl % 3);
 			vf_bytes(&r, key, sizeof key);
@@ -1178,7 +1186,7 @@ part_ccm(int ndecl)
 			int kind, rv;
 			uint64_t da, dm;
 
-			if (idx % g_nworkers != g_worker) continue;
+			if (!mine()) continue;
 			vf_rng_init(&r, (uint64_t)g_seed, 0x48000000ull + (uint64_t)idx);
 			klen = 16 + 8 * (size_t)(j % 3);
 			vf_bytes(&r, key, sizeof key);
@@ -1282,7 +1290,7 @@ part_edge(int reps)
 			int d, i;
 			char part[64];
 
-			if (idx % g_nworkers != g_worker) continue;
+			if (!mine()) continue;
 			vf_rng_init(&r, (uint64_t)g_seed, 0x50000000ull + (uint64_t)idx);
 			klen = 16 + 8 * (size_t)((c + e) % 3);
 			vf_bytes(&r, key, sizeof key);
